@@ -474,7 +474,7 @@ func main() {
 	mc.Main("C11", "exploration", func(c *mc.Ctx) {
 		e := &env{c: c, col: &collector{m: map[string]*witness{}}, cls: classes()}
 		// representatives for the SameShard pair check
-		bLens := []int{0, 1, 26, 32}
+		bLens := []int{0, 1, 32}
 		bCls := pickClasses(e.cls, "ordinary(0xab..)", "all-zero", "sc-meta(vm=0001)", "sc-shard(byte10=1)")
 		if !c.Quick() {
 			bLens = []int{0, 1, 2, 10, 11, 25, 26, 32, 33}
